@@ -43,16 +43,24 @@ Fixpoint lz4_ext (b : bytes) (acc : N) : option (N * bytes) :=
 Definition lz4_len (nib : N) (b : bytes) : option (N * bytes) :=
   if N.eqb nib 15 then lz4_ext b 15 else Some (nib, b).
 
-(* match copy, byte by byte (overlap allowed): the output so far is kept reversed, so the byte `off`
-   positions back is element off-1 *)
-Fixpoint lz4_copy (n : nat) (off : nat) (racc : bytes) : option bytes :=
+(* match copy with byte-by-byte semantics (overlap allowed: "matchlength can be larger than offset"): the output so
+   far is kept reversed, so the last `off` bytes are its first `off` elements; copying n bytes one at a time from `off`
+   positions back appends the cyclic repetition of those `off` bytes *)
+Fixpoint lz4_cycle (n : nat) (pat cur : bytes) (racc : bytes) : bytes :=
   match n with
-  | O => Some racc
-  | S k => match nth_error racc (off - 1) with
-           | Some x => lz4_copy k off (x :: racc)
-           | None => None                      (* offset reaches before the start of the output *)
+  | O => racc
+  | S k => match cur with
+           | x :: r => lz4_cycle k pat r (x :: racc)
+           | [] => match pat with
+                   | x :: r => lz4_cycle k pat r (x :: racc)
+                   | [] => racc
+                   end
            end
   end.
+Definition lz4_copy (n : nat) (off : nat) (racc : bytes) : option bytes :=
+  let pat := rev (firstn off racc) in
+  if Nat.ltb (length pat) off then None            (* offset reaches before the start of the output *)
+  else Some (lz4_cycle n pat pat racc).
 
 (* take with the length in N, refusing early when the input is shorter (no huge unary numbers) *)
 Definition take_N (n : N) (b : bytes) : option (bytes * bytes) :=
